@@ -71,7 +71,7 @@ def run(ctx):
     ctx.assume("the std case tables of the nightly source equal those of the stable toolchain that builds grex (same Unicode version)")
     prog = common.view(ctx, "default")
     lib = prog.lib
-    roles = common.role_fields(ctx, lib)
+    roles = common.role_fields(ctx, lib, want=common.FMT_ROLES)
     fmtmodel.cas1(ctx, lib, roles)
     lows = find_lowercaser(lib)
     if not ctx.floor("CAS-2", "functions calling str::to_lowercase", len(lows), 1):
